@@ -42,7 +42,9 @@ structure Pending where
 
 structure DSt where
   cfg : Cfg := ⟨[], []⟩
+  ft : FTab := {}
   decls : List (List Decl) := []
+  vars : List (List Var) := []
   s : St := {}
   inited : Bool := false
   k : Nat := 0
@@ -56,13 +58,19 @@ def note (st : DSt) (s : String) : DSt := { st with notes := st.notes ++ [s] }
 def bad (st : DSt) (s : String) : DSt := note { st with parseOk := false } s
 
 def ensureInit (st : DSt) : DSt :=
-  if st.inited then st else { st with inited := true, s := initSt st.decls }
+  if st.inited then st else
+  let inst := st.ft.oracle
+  let vars := st.decls.map fun ds => ds.filterMap fun d => @mkVar inst d
+  let st := if (vars.map List.length) = (st.decls.map List.length) then st
+            else bad st "a declaration the model's factory rejects"
+  { st with inited := true, vars := vars, s := initSt vars }
 
 def finalize (st : DSt) : DSt :=
   match st.cur with
   | none => st
   | some p =>
-    let r := step st.cfg st.s p.ev st.k
+    let inst := st.ft.oracle
+    let r := @step inst st.cfg st.s p.ev st.k
     let mo := fmtOut r.2
     let st := if mo = p.outLine then st else note { st with corrOk := false } s!"e{st.k} out impl[{p.outLine}] model[{mo}]"
     let nsvc := st.decls.length
@@ -81,6 +89,10 @@ def stepLine (st : DSt) (toks : List String) : DSt :=
   | ["cfg", h, c] => (match tokS h, tokS c with
       | some h, some c => { st with cfg := ⟨h, c⟩ }
       | _, _ => bad st "bad cfg")
+  | ["factoryfail", e] => bad st s!"the factory raised {e} on a declaration the type table accepts"
+  | "fdecl" :: rest => (match st.ft.add rest with
+      | some ft => { st with ft := ft }
+      | none => bad st s!"bad fdecl {rest}")
   | "decl" :: rest => (match parseDecl rest with
       | some (i, d) => { st with decls := addDecl st.decls i d }
       | none => bad st s!"bad decl {rest}")
@@ -103,15 +115,6 @@ def stepLine (st : DSt) (toks : List String) : DSt :=
       | _, _ => bad st s!"bad cb {l}")
   | _ => bad st s!"bad line {toks}"
 
-/-- index of the first observation the judge rejects (diagnostics only) -/
-def firstBad (decls : List (List Decl)) : JS → List Obs → Nat → Option (Nat × JS)
-  | _, [], _ => none
-  | js, o :: rest, i =>
-    if evInScope js o.ev then
-      if outOk o && valsOk decls (advance js o.ev) o.vals && cbsOk decls (advance js o.ev) o.cbs then firstBad decls (advance js o.ev) rest (i + 1)
-      else some (i, advance js o.ev)
-    else none
-
 def main : IO UInt32 := do
   let lines ← readLines (← IO.getStdin)
   let out ← IO.getStdout
@@ -126,15 +129,16 @@ def main : IO UInt32 := do
         n := n + 1
         st := finalize st
         let obs := st.obs.reverse
-        let j := C11.ok st.decls obs && st.parseOk
+        let inst := st.ft.oracle
+        let j := @C11.ok inst st.vars obs && st.parseOk
         let mut notes := st.notes.take 3
         if !j then
-          match firstBad st.decls {} obs 0 with
+          match @firstBadFrom inst st.vars {} obs 0 with
           | some (i, js) =>
             let o := obs.getD i ⟨.start 0 0, .nothing, [], []⟩
             notes := notes ++ [s!"judge e{i} out={fmtOut o.out} outOk={outOk o} cbs={o.cbs} vals={o.vals.map fun l => fmtVarObs (l.map fun p => (p.1, p.2, none))} granted={js.granted.map fun p => (p.1, ofS p.2)} seen={js.seen.length}"]
           | none => pure ()
-        if !allInScope {} (obs.map (·.ev)) then notes := notes ++ ["out-of-scope"]
+        if !(allInScope {} (obs.map (·.ev))) then notes := notes ++ ["out-of-scope"]
         out.putStrLn s!"case {cur} corr={if st.corrOk && st.parseOk then "ok" else "MISMATCH"} judge={if j then "ok" else "FAIL"} {" ; ".intercalate notes}"
     | [] => pure ()
     | _ => st := stepLine st toks
